@@ -70,7 +70,48 @@ def gen_layouts(tier):
         yield {"g": "wb", "wb": c["wb"]}
 
 
-SPACE = GenSpace({"text": gen_text, "grid": gen_grid, "defaults": gen_defaults, "types": gen_types, "layouts": gen_layouts}, chunk=400)
+ML_TEXTS = ["a\nb", "a\n${t0}\nb", "\n${t0}", "${t0}\nb", "a\n\nb", "a\n ${t0}\n b", "a\t${t0}\tb", "a\r\nb", "${t0}\n${t0}", "a\n${t0}", " \n${t0}\n ",
+            "x ${t0}\ny ${t0}\nz", "a\n<b>\n${t0}\n&"]
+
+
+def gen_multiline(tier):
+    """text with line breaks / tabs, in particular references standing alone on their line"""
+    for ch in TEXT_CH:
+        for t in ML_TEXTS:
+            if "${" in t and ch not in C06.OUTPUT_CH:
+                continue
+            for lang in ((False, True) if ch in C06.LANG_CH else (False,)):
+                for clean in (True, False):
+                    yield {"g": "ml", "ch": ch, "s": t, "lang": lang, "clean": clean}
+
+
+# (numeric labels, hints and settings values are not accepted by the dict API at all - internal exceptions, see DESIGN.md
+# section 7 observations - so the typed cells are those a dict caller can actually use: defaults, choice names, extra columns)
+TYPED_CELLS = [("survey", 0, "default", 1), ("survey", 1, "default", 7), ("choices", 0, "name", 1), ("choices", 0, "w", 1.5), ("choices", 1, "w", True),
+               ("choices", 1, "name", 2.5), ("survey", 1, "default", 7.25), ("choices", 0, "v", 0), ("choices", 1, "v", False), ("survey", 2, "default", 12)]
+
+
+def typed_wb(mask):
+    wb = {"survey": [{"type": "select_one c", "name": "s", "label": "S", "default": "1"}, {"type": "integer", "name": "n", "label": "5", "default": "7", "hint": "2.5"},
+                     {"type": "note", "name": "z", "label": "0"}],
+          "choices": [{"list_name": "c", "name": "1", "label": "2", "w": "1.5", "v": "0"}, {"list_name": "c", "name": "b", "label": "B", "w": "True", "v": "False"}],
+          "settings": [{"version": "3"}]}
+    for i, (sh, r, col, v) in enumerate(TYPED_CELLS):
+        if mask >> i & 1:
+            wb[sh][r][col] = v
+    return wb
+
+
+def gen_typed(tier):
+    """dict input whose cells hold numbers / booleans instead of strings"""
+    n = len(TYPED_CELLS)
+    masks = [m for m in range(1 << n) if bin(m).count("1") <= (2 if tier == "quick" else 4)] + [(1 << n) - 1]
+    for m in masks:
+        yield {"g": "typed", "mask": m}
+
+
+SPACE = GenSpace({"text": gen_text, "grid": gen_grid, "defaults": gen_defaults, "types": gen_types, "layouts": gen_layouts,
+                  "multiline": gen_multiline, "typed": gen_typed}, chunk=400)
 blocks = SPACE.blocks
 expand = SPACE.expand
 
@@ -86,6 +127,13 @@ def build(case):
         if not case["clean"]:
             wb.setdefault("settings", [{}])[0]["clean_text_values"] = "no"
         return wb, {}
+    if g == "ml":
+        wb = C06.build(case["ch"], case["s"], case["lang"])
+        if not case["clean"]:
+            wb.setdefault("settings", [{}])[0]["clean_text_values"] = "no"
+        return wb, {}
+    if g == "typed":
+        return typed_wb(case["mask"]), {}
     if g == "grid":
         return grid.build([tuple(c) for c in case["cells"]], case["dl"], ref=case["ref"])
     if g == "default":
